@@ -136,10 +136,19 @@ func (c *conn) Exit(onExit func(), e interface{}, err error) {
 
 func (c *conn) send(request data) (err error) {
 	var buffer [65507]byte
+	if len(request.Body) > len(buffer)-8 {
+		if resultChan, loaded := c.loadAndDelete(request.Index); loaded {
+			resultChan <- data{
+				Index: request.Index,
+				Error: core.ErrRequestEntityTooLarge,
+			}
+		}
+		return nil
+	}
 	header := makeHeader(len(request.Body), request.Index)
 	copy(buffer[:], header[:])
-	copy(buffer[8:], request.Body)
-	_, err = c.Write(buffer[:8+len(request.Body)])
+	n := 8 + copy(buffer[8:], request.Body)
+	_, err = c.Write(buffer[:n])
 	return
 }
 
